@@ -386,13 +386,28 @@ func (s *state) visitFunction(node *ast.FunctionNode) {
 	}
 
 	switch node.Name {
-	case "isFirst":
+	case "isFirst", "isLast", "index":
+		// The loop functions refer to the loop of their argument, which may
+		// be an enclosing one.
 		// TODO: Add compile-time check that this is only called on loop variable.
-		s.js("(", s.scope.loopindex(), " == 0)")
-	case "isLast":
-		s.js("(", s.scope.loopindex(), " == ", s.scope.looplimit(), " - 1)")
-	case "index":
-		s.js(s.scope.loopindex())
+		var loopVar string
+		if len(node.Args) == 1 {
+			if ref, ok := node.Args[0].(*ast.DataRefNode); ok {
+				loopVar = ref.Key
+			}
+		}
+		var index, limit = s.scope.loopindex(loopVar), s.scope.looplimit(loopVar)
+		if index == "" {
+			s.errorf("%v: argument is not a loop variable", node)
+		}
+		switch node.Name {
+		case "isFirst":
+			s.js("(", index, " == 0)")
+		case "isLast":
+			s.js("(", index, " == ", limit, " - 1)")
+		case "index":
+			s.js(index)
+		}
 	default:
 		s.errorf("unimplemented function: %v", node.Name)
 	}
